@@ -72,4 +72,37 @@ def App.getResponder (a : App) (route : Option MethodMap) (method : Method) (hit
     | some (.static, id) => .static id
     | none => .notFound
 
+/-! ### additions of the build round: `map_http_methods` with a suffix, the `params` element, the HTTP entry point -/
+
+/-- a callable attribute `on_<method>` (`suffix = none`) or `on_<method>_<suffix>` of a resource object -/
+structure Attr where
+  method : Method
+  suffix : Option String
+deriving DecidableEq, Repr
+
+/-- `map_http_methods(resource, suffix)`: the members of COMBINED_METHODS for which `on_<m>[_<suffix>]` is a callable attribute -/
+def mapHttpMethods (combined : List Method) (attrs : List Attr) (suffix : Option String) : List Method :=
+  combined.filter fun m => attrs.any fun a => a.method == m && a.suffix == suffix
+
+/-- the method map `add_route(template, resource, suffix=…)` stores in the router -/
+def mkMethodMap (rid : Nat) (combined : List Method) (attrs : List Attr) (suffix : Option String) : MethodMap :=
+  { rid := rid, impl := mapHttpMethods combined attrs suffix, combined := combined }
+
+/-- keyword arguments handed to the responder -/
+abbrev Kw := List (String × String)
+
+/-- the `params` element of `_get_responder`'s result: `fields` is what the router extracted for the matched template,
+    `groups id` is `m.groupdict()` of sink `id` for this path -/
+def App.getParams (a : App) (fields : Option Kw) (hits : Kind × Nat → Bool) (groups : Nat → Kw) : Kw :=
+  match fields with
+  | some f => f
+  | none =>
+    match a.order.find? hits with
+    | some (.sink, id) => groups id
+    | _ => []
+
+/-- `App.__call__` up to the choice of the responder: a meta method used as HTTP method is answered 400 before routing -/
+def App.dispatchHttp (a : App) (route : Option MethodMap) (method : Method) (hits : Kind × Nat → Bool) : Responder :=
+  if metaMethods.contains method then .badRequest else a.getResponder route method hits
+
 end Dp
